@@ -98,7 +98,8 @@ Definition to_discrete (K : nat) (pssm : list (list F32.t)) : res dmt :=
   let max_score := fsum maxs in
   offsets <- rmapM (row_min K) pssm ;;
   let offset := fsum offsets in
-  let factor := F32.div (F32.sub max_score offset) f255 in
+  (* (max_score - offset).abs() / (u8::MAX as f32)   [abs: repair of F14b, a factor of -0.0] *)
+  let factor := F32.div (F32.abs (F32.sub max_score offset)) f255 in
   Ok {| d_data := map (fun ro => map (disc_cell factor (snd ro)) (fst ro)) (combine pssm offsets);
         d_factor := factor;
         d_offset := offset |}.
